@@ -6,7 +6,7 @@
 //! permuted registration) and read back: operations, every `$ref`, the
 //! component keys, byte equality; and `lookup_route` is asked for each
 //! endpoint's own witness request at that version.
-use dropshot::{ApiDescription, ApiEndpoint, HttpError, HttpResponseOk, Path, RequestContext};
+use dropshot::{ApiDescription, ApiEndpoint, ApiEndpointVersions, HttpError, HttpResponseOk, Path, Query, RequestContext};
 use dsverif::c05::mk_range;
 use dsverif::dynschema::{set_slot, set_slot_json, Dyn, Slot};
 use dsverif::router::{ctype_str, g_ep, gen_case, router_fns, template_vars, EpSpec, Obs};
@@ -107,6 +107,102 @@ fn build(chain: &[Version], eps: &[EpSpec], resp: &[usize], order: &[usize]) -> 
         }
         api
     })
+}
+
+// ---- dependency closure of a parameter schema (ReferenceVisitor) ----
+
+/// a definition graph: name -> names it refers to (rendered as a oneOf of
+/// references, or a plain string type when it refers to nothing)
+#[derive(Serialize, Deserialize, Clone, Debug)]
+struct DepsCase {
+    deps_defs: Vec<(String, Vec<String>)>,
+    /// one query parameter per root, each a bare reference
+    roots: Vec<String>,
+}
+
+async fn hq(_r: RequestContext<()>, _q: Query<Dyn<1>>) -> Result<HttpResponseOk<()>, HttpError> {
+    Ok(HttpResponseOk(()))
+}
+
+fn def_json(refs: &[String]) -> Value {
+    match refs.len() {
+        0 => json!({"type": "string"}),
+        1 => json!({"allOf": [{"$ref": format!("#/components/schemas/{}", refs[0])}]}),
+        _ => json!({"oneOf": refs.iter().map(|r| json!({"$ref": format!("#/components/schemas/{}", r)})).collect::<Vec<_>>()}),
+    }
+}
+
+fn exec_deps(c: &DepsCase) -> Line {
+    let mut props = serde_json::Map::new();
+    let mut req = vec![];
+    for (i, r) in c.roots.iter().enumerate() {
+        props.insert(format!("p{}", i), json!({"$ref": format!("#/components/schemas/{}", r)}));
+        req.push(json!(format!("p{}", i)));
+    }
+    let keys = catch(|| {
+        set_slot(
+            1,
+            Slot {
+                name: "Q".into(),
+                schema: serde_json::from_value(json!({"type": "object", "properties": props, "required": req})).unwrap(),
+                defs: c.deps_defs.iter().map(|(n, rs)| (n.clone(), serde_json::from_value(def_json(rs)).unwrap())).collect(),
+                referenceable: false,
+            },
+        );
+        let mut api: ApiDescription<()> = ApiDescription::new();
+        api.register(ApiEndpoint::new("q".to_string(), hq, Method::GET, "application/json", "/q", ApiEndpointVersions::All))
+            .map_err(|e| e.to_string())
+            .unwrap();
+        let j = api.openapi("t", Version::new(1, 0, 0)).json().unwrap();
+        let mut keys: Vec<String> = j
+            .get("components")
+            .and_then(|c| c.get("schemas"))
+            .and_then(|s| s.as_object())
+            .map(|m| m.keys().filter(|k| k.starts_with("QD")).cloned().collect())
+            .unwrap_or_default();
+        keys.sort();
+        keys
+    });
+    let (coq_keys, obs) = match &keys {
+        Ok(k) => (format!("(Some {})", g_list(k, |s| g_str(s))), json!({"keys": k})),
+        Err(m) => ("None".to_string(), json!({"panic": m.chars().take(120).collect::<String>()})),
+    };
+    Line {
+        group: "deps",
+        case: serde_json::to_value(c).unwrap(),
+        obs,
+        coq: format!(
+            "(CDeps {} {} {})",
+            g_list(&c.deps_defs, |(n, rs)| format!("({}, {})", g_str(n), g_list(rs, |r| g_str(r)))),
+            g_list(&c.roots, |r| g_str(r)),
+            coq_keys
+        ),
+        tags: vec![format!("deps-defs:{}", c.deps_defs.len())],
+        nontrivial: c.deps_defs.len() >= 2,
+    }
+}
+
+fn gen_deps(rng: &mut Rng) -> DepsCase {
+    let n = rng.range(1, 7);
+    let names: Vec<String> = (0..n).map(|i| format!("QD{}", i)).collect();
+    let mut defs = vec![];
+    for (i, nm) in names.iter().enumerate() {
+        // references go anywhere (cycles included: the visitor enters a
+        // placeholder first) except through a chain that would make the
+        // scalar test of registration recurse for ever: keep oneOf/allOf
+        // edges pointing to higher indices, lower ones never
+        let mut rs = vec![];
+        for _ in 0..rng.below(3) {
+            if i + 1 < n {
+                rs.push(names[rng.range(i + 1, n - 1)].clone());
+            }
+        }
+        rs.dedup();
+        defs.push((nm.clone(), rs));
+    }
+    let nroots = rng.range(1, 3);
+    let roots: Vec<String> = (0..nroots).map(|_| names[rng.below(n)].clone()).collect();
+    DepsCase { deps_defs: defs, roots }
 }
 
 fn collect_refs(v: &Value, out: &mut Vec<String>) {
@@ -345,10 +441,28 @@ fn gen(opts: &Opts) -> Vec<Case> {
 
 fn main() {
     dsverif::cli::main(|opts, replay, out: &mut dyn Write| {
+        let mut deps: Vec<DepsCase> = vec![];
         let cases: Vec<Case> = match replay {
-            Some(vs) => vs.into_iter().map(|v| serde_json::from_value(v).expect("openapi case")).collect(),
-            None => gen(opts),
+            Some(vs) => {
+                let mut cs = vec![];
+                for v in vs {
+                    if v.get("deps_defs").is_some() {
+                        deps.push(serde_json::from_value(v).expect("deps case"));
+                    } else {
+                        cs.push(serde_json::from_value(v).expect("openapi case"));
+                    }
+                }
+                cs
+            }
+            None => {
+                let mut rng = Rng::new(opts.seed ^ 0xdeb5);
+                deps = (0..if opts.thorough { 2000 } else { 200 }).map(|_| gen_deps(&mut rng)).collect();
+                gen(opts)
+            }
         };
+        for d in &deps {
+            emit(out, &exec_deps(d));
+        }
         for c in &cases {
             // tables that registration refuses are C02's subject
             if let Some(l) = exec(c) {
